@@ -11,6 +11,7 @@ import VrlModel.Driver.C23
 import VrlModel.Driver.C24
 import VrlModel.Driver.C35
 import VrlModel.Driver.C36
+import VrlModel.Driver.C27
 
 /-- Line protocol driver: one case per line `op <tab> arg…`, one reply line per case. -/
 def handlers : List (String → List String → Option String) := [
@@ -26,7 +27,8 @@ def handlers : List (String → List String → Option String) := [
   Driver.C23.handle,
   Driver.C24.handle,
   Driver.C35.handle,
-  Driver.C36.handle
+  Driver.C36.handle,
+  Driver.C27.handle
 ]
 
 def dispatch (op : String) (args : List String) : String :=
